@@ -26,10 +26,10 @@ contains duplicate columns.  The main generator builds data in which every (even
 (mandatory rows, by construction; class 'all_pairs_occur'); sub-check ``parity_missing_pair`` searches
 the region itself with every assertion except distinctness; PROBES holds concrete failing cases.
 
-Finding D18 (found by this module): with a loss moment and constant *float* labels, fit takes the
-"single label value" shortcut and builds ``DummyClassifier(constant=np.float64(c))``, which sklearn
-rejects (InvalidParameterError).  The 'bgl' generator gives the first two mandatory rows different
-label values (class 'labels_not_constant'); the region is probed with the minimal case found.
+Finding D18 (found by this module, since repaired in /repo): with a loss moment and constant *float*
+labels, fit took the "single label value" shortcut and built ``DummyClassifier(constant=np.float64(c))``,
+which sklearn rejects (InvalidParameterError).  Constant labels are part of the ordinary 'bgl' search
+(class 'labels_constant') and the minimal case is replayed from regressions/C09.
 """
 
 from __future__ import annotations
@@ -61,8 +61,7 @@ ASSUMPTIONS = [
     "tolerances: 1e-9 best response and L1 norm, 1e-10 recorded values and selection",
     "known finding D11 (duplicate multiplier vectors when a conditioned label class is missing from a group) is excluded "
     "from 'parity' by construction, probed, and searched without the distinctness assertion in 'parity_missing_pair'",
-    "finding D18 (constant float labels with BoundedGroupLoss raise InvalidParameterError) is excluded from 'bgl' by "
-    "construction and probed",
+    "repaired finding D18 (constant float labels with BoundedGroupLoss) is inside the ordinary 'bgl' domain",
 ]
 
 TOL_BR = 1e-9
@@ -280,8 +279,8 @@ def check_bgl(case):
     _check_delegation(gs, case, bi, proba=False)
 
     tags = ["bgl", "groups%d" % len(groups)]
-    if len(set(case["y"])) > 1:
-        tags.append("labels_not_constant")
+    if len(set(case["y"])) == 1:
+        tags.append("labels_constant")
     best_mean = min_weighted(np.full(n, 1.0 / n))
     n_distinct = len(set(preds))
     if n_distinct >= 3 and objs[bi] > best_mean + 1e-12:
@@ -335,16 +334,20 @@ def _bgl_cases(draw):
     level = st.integers(0, n_levels - 1)
     # group-specific offsets so that the groups' losses differ and pull the fit apart
     centre = [draw(st.integers(0, steps)) for _ in range(n_groups)]
-    # one mandatory row per group; the first two carry different label values, so the labels are never
-    # constant (constant real labels are the input region of finding D18)
+    # one mandatory row per group; about one case in twelve has constant labels (region of repaired D18)
+    constant = draw(st.integers(0, 11)) == 0
     k0 = draw(st.integers(0, steps))
     k1 = (k0 + draw(st.integers(1, steps))) % (steps + 1)
+    if constant:
+        yval = st.just(lo + 0.25 * k0)
+        k1 = k0
+        centre = [k0] * n_groups
     rows = [(draw(level), 0, lo + 0.25 * k0), (draw(level), 1, lo + 0.25 * k1)]
     rows += [(draw(level), g, draw(yval)) for g in range(2, n_groups)]
     n = draw(st.integers(max(6, len(rows)), 24))
     while len(rows) < n:
         g = draw(st.integers(0, n_groups - 1))
-        if draw(st.integers(0, 2)) == 2:
+        if constant or draw(st.integers(0, 2)) == 2:
             yv = draw(yval)
         else:
             yv = lo + 0.25 * min(steps, max(0, centre[g] + draw(st.integers(-1, 1))))
@@ -382,7 +385,7 @@ def in_d18(sub_name, case):
     return sub_name == "bgl" and len(set(case["y"])) == 1
 
 
-REGIONS = {"D11": in_d11, "D18": in_d18}
+REGIONS = {"D11": in_d11}
 
 _D18_PROBE = {
     "alphabet": "int", "cw": 0.0, "grid_limit": 0.5, "grid_size": 2, "groups": [0, 1, 0, 0, 0, 0], "hi": 1.0,
@@ -408,7 +411,7 @@ _D11_PROBES = [
     # equalized odds: ('label=0', group 0) missing -> one of two basis columns is zero
     _d11_probe("EqualizedOdds", [0, 1, 1, 0, 0, 0], [1, 0, 1, 1, 1, 1], [0, 0, 1, 0, 1, 0]),
 ]
-PROBES = {"D11": [("parity", c) for c in _D11_PROBES], "D18": [("bgl", _D18_PROBE)]}
+PROBES = {"D11": [("parity", c) for c in _D11_PROBES]}
 
 SUBS = [
     Sub("parity", check_parity, strategy=_parity_cases, quick=192, thorough=4000, shards=12, shrink_quick=False,
@@ -418,5 +421,5 @@ SUBS = [
     Sub("parity_missing_pair", check_parity_missing, strategy=_missing_cases, quick=40, thorough=800, shards=4,
         shrink_quick=False, floors={"missing_pair": 1.0, "predictors>=3": 0.15}),
     Sub("bgl", check_bgl, strategy=_bgl_cases, quick=60, thorough=1200, shards=6, shrink_quick=False,
-        floors={"bgl": 1.0, "labels_not_constant": 1.0, "nt": 0.25, "predictors>=3": 0.4, "groups3": 0.1, "groups4": 0.1}),
+        floors={"bgl": 1.0, "labels_constant": 0.02, "nt": 0.25, "predictors>=3": 0.4, "groups3": 0.1, "groups4": 0.1}),
 ]
